@@ -110,6 +110,17 @@ def scenarios(hp: bytes, refused: bytes, hp2: bytes = b'h2:2') -> Dict[str, Any]
     S['big-download'] = lambda cv: [('send', get(b'/big', cv)), ('responses', 1, [b'GET']), ('close',)]
     S['big-upload'] = lambda cv: [('send', b'POST http://%s/up HTTP/1.1\r\nHost: %s\r\nX-Conv: %s\r\nContent-Length: %d\r\n\r\n' % (hp, hp, cv, len(mb)) + mb),
                                   ('responses', 1, [b'POST']), ('close',)]
+    # a follow-up request the pipelined parser chokes on with something else than a protocol error (int('abc'), int('ZZ', 16)):
+    # whatever a mode does with the connection then, every mode does
+    S['followup-bad-content-length'] = lambda cv: [('send', get(b'/b1', cv)), ('responses', 1, [b'GET']),
+                                                   ('send', b'POST http://%s/bad HTTP/1.1\r\nHost: %s\r\nX-Conv: %s\r\nContent-Length: abc\r\n\r\nxyz' % (hp, hp, cv)),
+                                                   ('eof',)]
+    S['followup-bad-chunk-size'] = lambda cv: [('send', get(b'/b2', cv)), ('responses', 1, [b'GET']),
+                                               ('send', b'POST http://%s/bad HTTP/1.1\r\nHost: %s\r\nX-Conv: %s\r\nTransfer-Encoding: chunked\r\n\r\nZZ\r\nhello\r\n0\r\n\r\n' % (hp, hp, cv)),
+                                               ('eof',)]
+    S['followup-bad-then-more'] = lambda cv: [('send', get(b'/b3', cv)), ('responses', 1, [b'GET']),
+                                              ('send', b'POST http://%s/bad HTTP/1.1\r\nHost: %s\r\nX-Conv: %s\r\nContent-Length: abc\r\n\r\n' % (hp, hp, cv)),
+                                              ('advance', 3), ('send', get(b'/b4', cv)), ('eof',)]
     S['client-reset-mid-request'] = lambda cv: [('send', get(b'/never-sent', cv)[:30]), ('advance', 5), ('reset',)]
     S['client-closes-while-origin-silent'] = lambda cv: [('send', get(b'/never', cv)), ('origin-sees', cv), ('advance', 5), ('close',)]
     return S
@@ -205,10 +216,30 @@ def run_case(case: Dict[str, Any]) -> Dict[str, Any]:
         name = case['scenario']
         try:
             ref = reference(name)
+            runs = {mode: in_process(name, mode, case['i'] * 4 + ['step-remote', 'thread', 'step-local'].index(mode))
+                    for mode in ('step-remote', 'thread', 'step-local')}
+            stuck = [m for m, t in runs.items() if t['watchdog']] + (['reference'] if ref['watchdog'] else [])
+            finished = [m for m, t in runs.items() if not t['watchdog']]
+            if stuck and finished:
+                # a conversation that some mode brings to its end while another never does is a difference between the modes, not
+                # a slow machine - provided it happens again on a second attempt
+                again = {m: in_process(name, m, case['i'] * 4 + 100 + k) for k, m in enumerate(x for x in stuck if x != 'reference')}
+                still = [m for m, t in again.items() if t['watchdog']]
+                if 'reference' in stuck:
+                    _ref.pop(name, None)
+                    ref = reference(name)
+                    if ref['watchdog']:
+                        still.append('step-local(reference)')
+                if still:
+                    viol.append({'key': '%s|%s-never-finishes-the-conversation-while-%s-does' % (name, '+'.join(sorted(set(x.split('(')[0] for x in still))), '+'.join(sorted(finished))),
+                                 'detail': {'scenario': name, 'stuck_twice': still, 'finished': finished}})
+                    return {'viol': viol, 'nontrivial': True, 'inconclusive': None, 'sig': 'inproc/' + name, 'obs': obs,
+                            'sets': {'scenarios': {name}}, 'sample': {'case': case}}
+                runs.update(again)
             if ref['watchdog']:
                 return {'viol': [], 'inconclusive': 'reference-watchdog', 'obs': {}, 'sig': name, 'nontrivial': True}
             for mode in ('step-remote', 'thread', 'step-local'):
-                t = in_process(name, mode, case['i'] * 4 + ['step-remote', 'thread', 'step-local'].index(mode))
+                t = runs[mode]
                 if t['watchdog']:
                     inconclusive = 'watchdog:%s' % mode
                     continue
@@ -552,7 +583,7 @@ def cases(tier: str, seed: int):
 
 def floors(tier: str) -> Dict[str, int]:
     return {'transcripts_equal': 150, 'live_transcripts_equal': 100, 'live_batches': 5, 'mode:step-remote': 20, 'mode:thread': 20,
-            'mode:live-threaded': 1, 'mode:live-local': 1, 'mode:live-remote': 1, 'distinct:scenarios': 24,
+            'mode:live-threaded': 1, 'mode:live-local': 1, 'mode:live-remote': 1, 'distinct:scenarios': 27,
             'tls_front_transcripts_equal': 8, 'storm_batches': 4, 'storm_connections_served': 1500}
 
 
